@@ -287,7 +287,9 @@ def r5_3(ctx):
         else:
             ctx.bad("R5.3", fi.module, fi.qual, pat, badmsg, fi.node.lineno)
     _restr = "{test}\n    new_to_delete = []\n    new_uids_to_delete = []\n    for uid in uid_msg_set:\n        if uid in uids_to_delete:\n            new_uids_to_delete.append(uid)\n            pos = uids_to_delete.index(uid)\n            new_to_delete.append(to_delete[pos])\n    to_delete = sorted(new_to_delete, reverse=True)\n    ..."
-    restr_pats = [_restr.format(test="if uid_msg_set is not None:"), _restr.format(test="if uid_msg_set:")]
+    # (`if uid_msg_set:` is not the same test: a UID EXPUNGE that names only UIDs that do not exist arrives as an empty
+    # list, which must restrict the removal to nothing - not lift the restriction)
+    restr_pats = [_restr.format(test="if uid_msg_set is not None:")]
     if any(pm.has(x) for x in restr_pats):
         ctx.ok("R5.3", where(fi), "UID EXPUNGE: restricted to uids in both uid_msg_set and the \\Deleted set (key taken at the uid's position)")
     else:
